@@ -546,6 +546,12 @@ impl Actor {
         }
     }
 
+    /// Verification hook: give the node a chosen id (both routing tables are re-keyed), before it has learned anybody.
+    pub fn verif_set_id(&mut self, id: Id) {
+        self.core.routing_table.reset_id(id);
+        self.core.signed_peers_routing_table.reset_id(id);
+    }
+
     /// Verification hook for actors owned by an external scheduler ("inline" nodes):
     /// the API-message half of one iteration of [run], for `Put`.
     pub fn verif_api_put(
